@@ -191,6 +191,7 @@ type workload struct {
 	errs       map[string]int // error class -> count, writes with unknown outcome
 	stop       int32
 	leaderHint int32
+	nonIdem    bool
 }
 
 func newWorkload(seed int64, nActive, minB, maxB, maxUnk int) *workload {
@@ -237,6 +238,23 @@ func (w *workload) uniq() int64 {
 
 func (w *workload) genOpLocked(o *object) string {
 	r := w.rng.Intn(100)
+	if w.nonIdem && r < 75 {
+		// mostly operations whose effect is visible when applied twice
+		switch o.typ {
+		case "kv":
+			return "incr"
+		case "h":
+			d := int64(1) << uint(o.nhincr%60)
+			o.nhincr++
+			return fmt.Sprintf("hincrby:%d", d)
+		case "l":
+			if r < 50 {
+				return fmt.Sprintf("lpush:%d", w.uniq())
+			}
+			return "lpop"
+		}
+	}
+	r = w.rng.Intn(100)
 	switch o.typ {
 	case "kv":
 		switch {
